@@ -56,4 +56,54 @@ example : Gen.PyFns_Length.get_content_length (some " -12 ".toList) none = some 
 example : Gen.PyFns_Length.get_content_length (some "42".toList) (some "gzip".toList) = some 42 := by
   decide
 
+/-! ### `wsgi.get_content_length(environ)` and `wsgi.get_input_stream` -/
+
+/-- the outcome of the model's `getInputStream` read as the outcome of the function: `tooLarge` is the
+raised `RequestEntityTooLarge`, every other choice is returned -/
+def choiceView : LS.Choice → Except String LS.Choice
+  | .tooLarge => .error "RequestEntityTooLarge"
+  | c => .ok c
+
+/-- `wsgi.get_content_length(environ)`, as translated from the current source: the sansio function on
+the two environ entries `CONTENT_LENGTH` and `HTTP_TRANSFER_ENCODING` (the key texts are part of the
+translated definition). -/
+theorem wsgi_get_content_length_eq (environ : List (List Char × List Char)) :
+    Gen.PyFns_Length.wsgi_get_content_length environ
+      = (LS.getContentLength (Pre.dictGet? environ "CONTENT_LENGTH".toList)
+          (Pre.dictGet? environ "HTTP_TRANSFER_ENCODING".toList == some "chunked".toList)).map Int.ofNat := by
+  have h1 : "CONTENT_LENGTH".toList = ['C', 'O', 'N', 'T', 'E', 'N', 'T', '_', 'L', 'E', 'N', 'G', 'T', 'H'] := by decide
+  have h2 : "HTTP_TRANSFER_ENCODING".toList = ['H', 'T', 'T', 'P', '_', 'T', 'R', 'A', 'N', 'S', 'F', 'E', 'R', '_', 'E', 'N', 'C', 'O', 'D', 'I', 'N', 'G'] := by decide
+  have h3 : "chunked".toList = ['c', 'h', 'u', 'n', 'k', 'e', 'd'] := by decide
+  rw [h1, h2, h3]
+  unfold Gen.PyFns_Length.wsgi_get_content_length
+  exact get_content_length_eq _ _
+
+/-- `wsgi.get_input_stream(environ, safe_fallback, max_content_length)`, as translated from the current
+source (the declared length against `max_content_length` first - RequestEntityTooLarge -, then
+`wsgi.input_terminated`: a `LimitedStream` with `is_max=True` or the raw stream, else no length: an empty
+stream / the raw stream, else a `LimitedStream` of the declared length), makes exactly the choice of the
+model's `getInputStream`, for every environ, both flags and every limit (a natural number, or `None`). -/
+theorem get_input_stream_eq (terminated : Bool) (environ : List (List Char × List Char)) (safe : Bool)
+    (max : Option Nat) :
+    Gen.PyFns_Length.get_input_stream terminated environ safe (max.map Int.ofNat)
+      = choiceView (LS.getInputStream (Pre.dictGet? environ "CONTENT_LENGTH".toList)
+          (Pre.dictGet? environ "HTTP_TRANSFER_ENCODING".toList == some "chunked".toList) terminated max safe) := by
+  unfold Gen.PyFns_Length.get_input_stream LS.getInputStream
+  rw [wsgi_get_content_length_eq]
+  generalize LS.getContentLength (Pre.dictGet? environ "CONTENT_LENGTH".toList)
+    (Pre.dictGet? environ "HTTP_TRANSFER_ENCODING".toList == some "chunked".toList) = n
+  cases n with
+  | none =>
+    cases max <;> cases terminated <;> cases safe <;>
+      simp [choiceView, Gen.PyFns_Length.choiceLimited]
+  | some n =>
+    cases max with
+    | none => cases terminated <;> simp [choiceView, Gen.PyFns_Length.choiceLimited]
+    | some m =>
+      by_cases h : n > m
+      · have h' : (Int.ofNat n) > (Int.ofNat m) := by simp only [Int.ofNat_eq_natCast]; omega
+        simp [h, choiceView]
+      · have h' : ¬ (m : Int) < (n : Int) := by omega
+        cases terminated <;> simp [h, h', choiceView, Gen.PyFns_Length.choiceLimited]
+
 end Wz.Props.C09T
